@@ -121,6 +121,13 @@ func readLine(b *bfe_bufio.Reader) (p []byte, err error) {
 	if len(p) >= maxLineLength {
 		return nil, ErrLineTooLong
 	}
+	// Take off the line terminator (CRLF, or a bare LF) before trimming
+	// blanks: a CR anywhere else is not part of the chunked grammar and is
+	// left in place for the size parser to refuse.
+	p = p[:len(p)-1]
+	if len(p) > 0 && p[len(p)-1] == '\r' {
+		p = p[:len(p)-1]
+	}
 	return trimTrailingWhitespace(p), nil
 }
 
@@ -132,7 +139,7 @@ func trimTrailingWhitespace(b []byte) []byte {
 }
 
 func isASCIISpace(b byte) bool {
-	return b == ' ' || b == '\t' || b == '\n' || b == '\r'
+	return b == ' ' || b == '\t'
 }
 
 // newChunkedWriter returns a new chunkedWriter that translates writes into HTTP
